@@ -53,4 +53,41 @@ PROPS.update({
         explanation="theorems: get/command/ping/deviceId/uint/int/string_transparent (erasing logger configuration commutes with every call), config_independent, uint_emits_one_line, no_logger_no_line, file_append, file_append_step"),
 })
 
+TABLES = dict(driver="drivertables", lake_targets=["drivertables"], tools=["extract", "harness"], gen=["tables"])
+T1 = "tools/extract (T1): the enumeration loops over all 65536 product ids, 256 type values, 256 command bytes, 256 bytes x 20 typed enum constructors, the index-to-name maps and the register tables of every Append function — and determinism of those functions; the emitted table IS the function graph"
+MODEL_TABLES = "hand-written models Victron/Model/{Tables,Select}.lean (lookups, NewEnum range check, Fields/CommaString, list algebra, product->list switch) tied to the code by the correspondence check (T3)"
+
+PROPS.update({
+    "C12": dict(TABLES, suites=["c12"], exhaustive=True, trivial=r"^$",
+        rule="all 65536 product ids: the real GetRegisterListByProduct result (error kind + every attribute of every register) is grouped by identical content; per distinct content one SL line compares the full list with Select.list, and SG lines ask the model whether all ids of the group select the same list (500 ids per line) — i.e. full comparison for every id; the Go oracle independently checks class membership, uniqueness, factors, decoders per id",
+        trusted_base=[KERNEL, HARNESS, GOSTD, T1, MODEL_TABLES],
+        assumptions=["the load-output class is identified by the current rating (10, 15, 20 A) read off the model designation", "Append functions append the same registers whatever the list already holds (validated by the exhaustive comparison)"],
+        explanation="theorems: rows_ok (decide +kernel over every product row), list_by_class (all ids), class_solely, unsupported_empty, supported_ok, lists_ok (names/addresses unique, factors non-zero, decoders present in each of the 5 class lists), load_class"),
+    "C13": dict(TABLES, suites=["c13"], exhaustive=True, trivial=r"^0\|\|0\|\|-1\|-1\|0\|$",
+        rule="all 65536 product ids (Exists, Model, Type, String, MaxPanelVoltage, MaxPanelCurrent, membership and value in GetStringMap), all 256 type values, all 256 command bytes: real observables vs the lookup in the regenerated table; non-trivial = a known product / named type / any response line; the Go oracle evaluates the property's predicates per id to name an offending id",
+        trusted_base=[KERNEL, HARNESS, T1],
+        assumptions=["id ranges of the categories: 0x02xx and 0xA38x BMV; 0x03xx, 0xA0xx, 0xA1xx solar; 0xA2xx and 0xA34x inverter", "Phoenix ids 0xA2xy: x power class, y&7 battery voltage, y&8 120 V AC"],
+        explanation="theorems: rows_ok / types_ok / ids_ascending / map_size (decide +kernel over the whole tables), known_iff, display_string, one_category, panel_numbers, phoenix_model, types_partition, ten_types — lifted to ALL ids by the lookup lemma"),
+    "C14": dict(TABLES, suites=["c14"], trivial=r"^err:invalid-enum$",
+        rule="per factory (20): NewEnum over every integer in [-70000, 70000] (summarised as the accepted set with index and name, one ENR line), extreme integers (±2^63, ±2^31, 2^32+k, 2^16+k, …), random 64-bit integers, the typed constructor over all 256 bytes, IntToStringMap; the Go oracle checks 'succeeds iff key, index v, mapped non-empty name, else ErrInvalidEnumIdx' for each integer (coverage.measured.integers_checked)",
+        trusted_base=[KERNEL, HARNESS, T1, MODEL_TABLES],
+        assumptions=["NewEnum is a range check followed by the typed constructor on the byte (model); validated by the correspondence on 2.8 million integers per run"],
+        explanation="theorems: tables_ok (decide +kernel: 20 tables x 256 bytes), newEnum_iff / newEnum_value / newEnum_error for EVERY integer v, typed_agrees"),
+    "C15": dict(TABLES, suites=["c15"], trivial=r"^$", exhaustive={"quick": False, "thorough": False},
+        rule="per field-list type: all combinations of the documented bits x settings of the remaining bits (zero, all ones, random, bits >= 32), the 16-bit type exhaustively; Fields() compared with the model; each value rendered through the real register API (StreamRegisterList -> FieldListValue.CommaString) 8 times: all renderings identical, names exactly the set fields, equal to the model's rendering",
+        trusted_base=[KERNEL, HARNESS, T1, MODEL_TABLES],
+        assumptions=["determinism of a Go function that ranges over a map cannot be proved from a model; in the model rendering is a function, the repeated-rendering oracle checks the code"],
+        explanation="theorems: fields_keys, fields_bit, undocumented_bits_irrelevant, tables_ok, width_truncation (bits >= width have no influence), render_exact, render_deterministic"),
+    "C16": dict(TABLES, suites=["c16"], trivial=r"^0 ",
+        rule="operation sequences over real registers of all three families (shared sort keys 200–205, duplicate names): exhaustive for sequences of length <= 3 (4 thorough) over a 10-letter alphabet (appends of each kind, kind/parity filters, name filters), random sequences up to length 200; after each sequence the four sequences, Len and GetRegisters are compared with the model and with four plain slices + insertion-stable sort (Go reference)",
+        trusted_base=[KERNEL, HARNESS, T1, MODEL_TABLES, "core List.mergeSort lemmas (perm, pairwise, sublist stability)"],
+        assumptions=["sharing of backing arrays between copies of a RegisterList struct is outside the property"],
+        explanation="theorems: run_refines (any op sequence = four independent plain sequences), filter_keeps_order, name_filter_drops_named, len_total, getRegisters_perm, getRegisters_sorted, getRegisters_stable"),
+    "C17": dict(TABLES, suites=["c17"], trivial=r"^$",
+        rule="every lookup function (product string map, 20 enum + 3 field-list index-to-name maps, Fields()/Decode() of field lists incl. raw 0, GetRegisterListByProduct for each class) x caller mutations (delete, overwrite, insert, in-place delete idiom, in-place sort, element overwrite, library append/filter) x a second and third call (same and sibling product); the later call's full content is compared with the table content of the model and with the first call",
+        trusted_base=[KERNEL, HARNESS, T1, "the heap model of Props/C17.lean (copy-on-lookup)"],
+        assumptions=["the theorem is about the heap model; that the code allocates as the model says is established only by the correspondence (level: proof on the model, partial w.r.t. Go reference semantics)"],
+        explanation="theorems: step_internal, lookup_stable (any history of lookups and caller mutations), lookup_returns_original"),
+})
+
 NOT_APPLICABLE = {}
